@@ -394,8 +394,10 @@ class ClassDiagram:
 
         Inheritance edges are preserved.
         """
-        # Rebuild a fresh diagram from the same classes to avoid mutating this instance
+        # Work on a copy of the graph to avoid mutating this instance
         result = copy(self)
+        result._dependency_graph = self._dependency_graph.copy()
+        result._cls_wrapped_cls_map = dict(self._cls_wrapped_cls_map)
         # Convenience locals
         g = result._dependency_graph
 
